@@ -927,6 +927,19 @@ def expand_includes(lines, root):
     out = []
     for ln in lines:
         s = ln.strip()
+        if s.startswith("//@include_methods "):
+            # copy the declarations (with their contracts) of the named trait methods verbatim from another contract file, so
+            # that a contract ASSUMED for a generic parameter here is literally the text PROVED per family there
+            m = re.match(r"//@include_methods\s+(\S+)\s*::\s*(.*)$", s)
+            with open(root + "/" + m.group(1)) as f:
+                src = f.read()
+            chunks = re.split(r"\n(?=    (?:proof fn|fn|spec fn|//) |\}|pub trait )", src)
+            for name in m.group(2).split():
+                hit = [c for c in chunks if re.match(r"    (?:proof )?fn %s\b" % re.escape(name), c)]
+                if len(hit) != 1:
+                    raise ExtractError("include_methods: %s not found exactly once in %s" % (name, m.group(1)))
+                out.extend(hit[0].rstrip().split("\n"))
+            continue
         if s.startswith("//@include "):
             path = s[len("//@include "):].strip()
             if "{{" in path:          # parametrised path: resolved when the enclosing //@for substitutes it
